@@ -317,8 +317,8 @@ package jsonata
 //@   requires node != nil && ifaceable(data)
 //@   preserves node
 //@   ensures [C01:empty-path] len(node.Steps) == 0 ==> (r1 == nil && !valid(r0))
-//@   ensures [C01:error-propagates] r1 != nil ==> !valid(r0)
-//@   ensures [C01:value-is-usable] (r1 == nil && valid(r0)) ==> canif(r0)
+//@   ensures [C01+C09:error-propagates] r1 != nil ==> !valid(r0)
+//@   ensures [C01+C09:value-is-usable] (r1 == nil && valid(r0)) ==> canif(r0)
 //@   atif[C01:anchored-at-variable] "isVar" iff startsWithVariable(node)
 //@   atif[C01:non-array-context-is-one-item] "jtypes.IsArray(data)" iff arrKind(kind(res(data)))
 //@   atcall[C01:steps-in-order] evalPathStep#0 requires callee_step == step && callee_data == output && callee_lastStep == (i == len(node.Steps) - 1)
@@ -333,7 +333,7 @@ package jsonata
 //@   requires nn(node) && arrKind(kind(res(data))) && canif(data)
 //@   ensures [C01:error-propagates] r1 != nil ==> (len(r0) == 0 && r1 == ret("eval#0", 1))
 //@   ensures [C01:at-most-one-result-per-item] r1 == nil ==> len(r0) <= rvlen(res(data))
-//@   ensures [C01:present-results-only] r1 == nil ==> (forall k in [0, len(r0)): (valid(r0[k]) && canif(r0[k])))
+//@   ensures [C01+C09:present-results-only] r1 == nil ==> (forall k in [0, len(r0)): (valid(r0[k]) && canif(r0[k])))
 //@   assigns heap
 //@   atcall[C01:item-is-context] eval#0 requires callee_node == node && callee_input == at(res(data), i)
 //@   atif[C01:absent-dropped] "res.IsValid()" iff valid(ret("eval#0", 0))
@@ -346,7 +346,7 @@ package jsonata
 //@   requires nn(node) && seq != nil
 //@   preserves seq
 //@   ensures [C01:error-propagates] r1 != nil ==> (len(r0) == 0 && r1 == ret("eval#0", 1))
-//@   ensures [C01:present-results-only] r1 == nil ==> (forall k in [0, len(r0)): (valid(r0[k]) && canif(r0[k])))
+//@   ensures [C01+C09:present-results-only] r1 == nil ==> (forall k in [0, len(r0)): (valid(r0[k]) && canif(r0[k])))
 //@   assigns heap
 //@   atcall[C01:item-is-context] eval#0 requires callee_node == node && callee_input == rvof(seq.values[i])
 //@   atif[C01:absent-dropped] "res.IsValid()" iff valid(ret("eval#0", 0))
@@ -361,8 +361,8 @@ package jsonata
 //@   opaque-arith
 //@   requires nn(step) && valid(data) && canif(data)
 //@   requires isSeq(data) || arrKind(kind(res(data)))
-//@   ensures [C01:error-propagates] r1 != nil ==> !valid(r0)
-//@   ensures [C01:value-is-usable] (r1 == nil && valid(r0)) ==> stepInput(r0)
+//@   ensures [C01+C09:error-propagates] r1 != nil ==> !valid(r0)
+//@   ensures [C01+C09:value-is-usable] (r1 == nil && valid(r0)) ==> stepInput(r0)
 //@   assigns heap
 //@   atcall[C01:maps-over-sequence-items] evalOverSequence#0 requires callee_node == step && callee_seq == ret("asSequence#0", 0)
 //@   atcall[C01:maps-over-array-items] evalOverArray#0 requires callee_node == step && callee_data == data
@@ -400,8 +400,8 @@ package jsonata
 //@   precise-append
 //@   requires f != nil && argsUsable(argv) && ifaceable(f.context)
 //@   requires [lemma] forall k in [1, len(argv) + 1): ifaceable(argv[k - 1])
-//@   ensures [C12:count-error-has-no-arguments] r1 != nil ==> len(r0) == 0
-//@   ensures [C12:accepted-count-fits] r1 == nil ==> (len(r0) >= len(f.params) && (len(r0) > len(f.params) ==> lastIsVariadic(f)) && argsUsable(r0))
+//@   ensures [C12+C09:count-error-has-no-arguments] r1 != nil ==> len(r0) == 0
+//@   ensures [C12+C09:accepted-count-fits] r1 == nil ==> (len(r0) >= len(f.params) && (len(r0) > len(f.params) ==> lastIsVariadic(f)) && argsUsable(r0))
 //@   ensures [C12:exact-count-accepted] len(argv) == len(f.params) ==> (r1 == nil && len(r0) == len(argv))
 //@   ensures [C12:surplus-rejected-unless-variadic] (len(argv) > len(f.params) && !lastIsVariadic(f)) ==> r1 != nil
 //@   ensures [C12:surplus-accepted-when-variadic] (len(argv) > len(f.params) && lastIsVariadic(f)) ==> (r1 == nil && len(r0) == len(argv))
@@ -439,8 +439,8 @@ package jsonata
 //@   props C12 C09
 //@   opaque-arith
 //@   requires f != nil && argsUsable(argv)
-//@   ensures [C12:type-error-has-no-arguments] r1 != nil ==> len(r0) == 0
-//@   ensures [C12:same-arguments] r1 == nil ==> (len(r0) == len(argv) && arr(r0) == arr(argv) && argsUsable(r0))
+//@   ensures [C12+C09:type-error-has-no-arguments] r1 != nil ==> len(r0) == 0
+//@   ensures [C12+C09:same-arguments] r1 == nil ==> (len(r0) == len(argv) && arr(r0) == arr(argv) && argsUsable(r0))
 //@   assigns elems(argv)
 //@   atif[C12:absent-argument-not-checked] "arg == undefined" iff !valid(arg)
 //@   atcall[C12:error-names-position] newArgTypeError#0 requires callee_which == i + 1
@@ -604,7 +604,7 @@ package jsonata
 //@   props C17 C09
 //@   opaque-arith
 //@   requires f != nil
-//@   ensures [C17:texts-and-offsets-pair-up] len(r0) == len(r1) && (forall p in [off(r0), off(r0) + len(r0)): len(slot(r0, p)) >= 1) && (forall p in [off(r1), off(r1) + len(r1)): len(slot(r1, p)) >= 2)
+//@   ensures [C17+C09:texts-and-offsets-pair-up] len(r0) == len(r1) && (forall p in [off(r0), off(r0) + len(r0)): len(slot(r0, p)) >= 1) && (forall p in [off(r1), off(r1) + len(r1)): len(slot(r1, p)) >= 2)
 //@   ensures [C17:offsets-are-the-engine's] len(r1) == len(ret("regexp.Regexp.FindAllStringSubmatchIndex#0", 0)) && (len(r1) > 0 ==> r1 == ret("regexp.Regexp.FindAllStringSubmatchIndex#0", 0))
 //@   atcall[C17:all-matches-of-the-whole-subject] regexp.Regexp.FindAllStringSubmatchIndex#0 requires callee_arg0 == f.re && same(callee_arg1, s) && callee_arg2 == -1
 //@   loop 0 invariant -1 <= $i0 && len(matches) == len(indexes) && local(matches) && alloc(indexes)
@@ -639,8 +639,8 @@ package jsonata
 //@   opaque-arith
 //@   precise-append
 //@   requires gcOK(c)
-//@   ensures [C20:count-error-has-no-arguments] r1 != nil ==> len(r0) == 0
-//@   ensures [C20:accepted-count-fits] r1 == nil ==> (c.isVariadic ? len(r0) >= len(c.params) - 1 : len(r0) == len(c.params))
+//@   ensures [C20+C09:count-error-has-no-arguments] r1 != nil ==> len(r0) == 0
+//@   ensures [C20+C09:accepted-count-fits] r1 == nil ==> (c.isVariadic ? len(r0) >= len(c.params) - 1 : len(r0) == len(c.params))
 //@   atcall[C20:context-handler-first-on-supplied-arguments] functype:ArgHandler#0 requires self == c.contextHandler && callee_arg0 == old(argv)
 //@   atcall[C20:undefined-handler-after-context-insertion] functype:ArgHandler#1 requires self == c.undefinedHandler && callee_arg0 == argv && ((c.contextHandler != nil && ret("functype:ArgHandler#0", 0)) ==> (len(argv) == len(old(argv)) + 1 && argv[0] == c.context)) && (!(c.contextHandler != nil && ret("functype:ArgHandler#0", 0)) ==> argv == old(argv))
 //@   atcall[C20:error-reports-supplied-count] newArgCountError#0 requires callee_received == len(old(argv))
@@ -659,8 +659,8 @@ package jsonata
 //@   opaque-arith
 //@   requires gcOK(c) && (c.isVariadic ? len(argv) >= len(c.params) - 1 : len(argv) == len(c.params))
 //@   preserves c
-//@   ensures [C20:type-error-has-no-arguments] r1 != nil ==> len(r0) == 0
-//@   ensures [C20:same-argument-list] r1 == nil ==> (len(r0) == len(argv) && arr(r0) == arr(argv))
+//@   ensures [C20+C09:type-error-has-no-arguments] r1 != nil ==> len(r0) == 0
+//@   ensures [C20+C09:same-argument-list] r1 == nil ==> (len(r0) == len(argv) && arr(r0) == arr(argv))
 //@   assigns heap
 //@   atcall[C20:parameter-of-the-position] processGoCallableArg#0 requires callee_param == c.params[(i >= paramCount ? paramCount - 1 : i)]
 //@   atcall[C20:error-names-position] newArgTypeError#0 requires callee_which == i + 1
@@ -847,7 +847,7 @@ package jsonata
 //@   props C02 C09
 //@   requires nn(filter) && arrKind(kind(items)) && canif(items)
 //@   ensures [C02:error-propagates] r1 != nil ==> (!valid(r0) && r1 == ret("eval#0", 1))
-//@   ensures [C02:result-is-list] r1 == nil ==> (kind(r0) == 23 && canif(r0))
+//@   ensures [C02+C09:result-is-list] r1 == nil ==> (kind(r0) == 23 && canif(r0))
 //@   assigns heap
 //@   atcall[C02:item-is-context] eval#0 requires callee_node == filter && callee_input == at(items, i)
 //@   atif[C02:position] "index == i" when (n >= -4000000000000000000.0 && n <= 4000000000000000000.0) iff posIndex(n, nItems) == i
@@ -887,9 +887,9 @@ package jsonata
 //@   props C13 C09
 //@   opaque-arith
 //@   requires arrKind(kind(items)) && canif(items)
-//@   ensures [C13:keys-complete] r1 == nil ==> (len(r0) == rvlen(items) && sortKeysOK(r0, len(terms)) && (forall a in [0, len(r0)): r0[a].index == a))
+//@   ensures [C13+C09:keys-complete] r1 == nil ==> (len(r0) == rvlen(items) && sortKeysOK(r0, len(terms)) && (forall a in [0, len(r0)): r0[a].index == a))
 //@   ensures [ghost] forall t in [0, len(terms)): ufb_numterm(r0, t) == isNumberTerm[t]
-//@   ensures [C13:keys-sortable-not-mixed] r1 == nil ==> (forall a in [0, len(r0)): forall t in [0, len(terms)): keyClassOK(r0[a].values[t], ufb_numterm(r0, t)))
+//@   ensures [C13+C09:keys-sortable-not-mixed] r1 == nil ==> (forall a in [0, len(r0)): forall t in [0, len(terms)): keyClassOK(r0[a].values[t], ufb_numterm(r0, t)))
 //@   ensures [C13:error-kinds] r1 != nil ==> (len(r0) == 0 && (r1 == ret("eval#0", 1) || evalErrIs(r1, ErrSortMismatch) || evalErrIs(r1, ErrNonSortable)))
 //@   assigns heap
 //@   loop 0 invariant 0 <= i && i <= N && N == rvlen(items) && len(info) == N && len(isNumberTerm) == len(terms) && len(isStringTerm) == len(terms)
@@ -961,6 +961,7 @@ package jsonata
 //@   requires node != nil
 //@   preserves node
 //@   abstract-float
+//@   ensures [C10:never-infinity-or-nan-as-a-value] (r1 == nil && valid(r0)) ==> (kind(r0) == 14 && finite(fval(r0)))
 //@   ensures [C03:error-propagates] (ret("eval#0", 1) != nil ==> r1 == ret("eval#0", 1)) && ((ret("eval#0", 1) == nil && ret("eval#1", 1) != nil) ==> r1 == ret("eval#1", 1))
 //@   ensures [C03:wrong-type-lhs] (ret("eval#0", 1) == nil && ret("eval#1", 1) == nil && valid(ret("eval#0", 0)) && !isNumV(ret("eval#0", 0))) ==> (evalErrIs(r1, ErrNonNumberLHS) && !valid(r0))
 //@   ensures [C03:wrong-type-rhs] (ret("eval#0", 1) == nil && ret("eval#1", 1) == nil && (!valid(ret("eval#0", 0)) || isNumV(ret("eval#0", 0))) && valid(ret("eval#1", 0)) && !isNumV(ret("eval#1", 0))) ==> (evalErrIs(r1, ErrNonNumberRHS) && !valid(r0))
